@@ -52,6 +52,14 @@ def op(name, arity, rule, poly=False, needs=None):
 for nm in ('exp', 'sin', 'cos', 'tanh', 'sinh', 'cosh', 'arctan', 'expm1'):
     op(nm, 1, _same)(lambda ns, a, _n=nm: getattr(ns, _n)(a))
 op('tan_s', 1, _same)(lambda ns, a: ns.tan(0.5 * ns.sin(a)))
+# special functions (reverse mode of these is only exercised through programs)
+for nm in ('erf', 'erfi', 'dawsn', 'expit'):
+    op(nm, 1, _same)(lambda ns, a, _n=nm: getattr(ns.special, _n)(a))
+op('logit_s', 1, _same)(lambda ns, a: ns.special.logit(0.5 + 0.3 * ns.sin(a)))
+op('gammaln_p', 1, _same)(lambda ns, a: ns.special.gammaln(a * a + 1.0)); op('psi_p', 1, _same)(lambda ns, a: ns.special.psi(a * a + 1.0))
+op('polygamma1_p', 1, _same)(lambda ns, a: ns.special.polygamma(1, a * a + 1.0)); op('hyperu_p', 1, _same)(lambda ns, a: ns.special.hyperu(1.5, 0.5, a * a + 0.5))
+op('clip_in', 1, _same)(lambda ns, a: ns.special.botched_clip(-5.0, 5.0, a)); op('clip_out', 1, _same)(lambda ns, a: ns.special.botched_clip(5.0, 6.0, a) + a)
+op('sign_p', 1, _same)(lambda ns, a: ns.sign(a * a + 0.5) * a)
 op('square', 1, _same, poly=True)(lambda ns, a: ns.square(a))
 op('negative', 1, _same, poly=True)(lambda ns, a: ns.negative(a))
 op('neg', 1, _same, poly=True)(lambda ns, a: -a)
